@@ -126,3 +126,31 @@ Theorem C06_emphasis_sound_hypotheses :
   map (fun m => (m_start m, m_end m)) (fst (find_core_tokens s [])) = [(3, 8); (0, 11); (16, 19)]%Z.
 Proof. exact sound_instance. Qed.
 Print Assumptions C06_emphasis_sound_hypotheses.
+
+(* ANY NUMBER of emphasised phrases (Proofs/EmphPairs.v, EmphPhrases.v, ChainTokens.v): the pairing itself - on a delimiter stack
+   that is a sequence of n pairs opener, closer (the opener a run that can only open, the closer a run of the same character and
+   length, one or two, that can only close) process_emphasis matches every closer with the opener before it, in order, and leaves
+   nothing, for every n (induction over the code's loop) ... *)
+From Mistletoe Require Import Proofs.EmphPairs Proofs.EmphPhrases.
+Theorem C06_sequential_pairs : forall s pairs ms, Forall pair_ok pairs -> (length pairs <= 3 * length s + 3)%nat ->
+  process_emphasis s None (flat pairs) ms = ([], ms ++ map (match_of s) pairs).
+Proof. exact sequential_pairs. Qed.
+Print Assumptions C06_sequential_pairs.
+
+(* ... and end to end: the text  t0 R1 w1 R1 t1 ... Rn wn Rn tn  (every Ri a run of one or two * or _, every wi free of trigger
+   characters and beginning and ending with a character that is neither white space nor punctuation, every ti non-empty trigger-free
+   text that begins and ends with white space or punctuation, t0 empty or ending so) tokenizes to t0, then for every phrase one
+   Emphasis / Strong holding wi followed by the text ti - scanner, flanking of all 2n runs, the pairing, every span finder, the
+   candidate tokenizer on n candidates that parse their content - for every n *)
+Theorem C06_emphasis_phrases : forall types fn t0 ps,
+  emph_spans types = true -> sentence_ok t0 ps = true ->
+  tokenize_inner types fn (t0 ++ body ps) = raw_if t0 ++ phrase_toks ps.
+Proof. exact emphasis_phrases. Qed.
+Print Assumptions C06_emphasis_phrases.
+
+Theorem C06_emphasis_phrases_hypotheses :
+  let ps : list phrase := [(42%Z, 0%nat, $"one", $" and "); (95%Z, 1%nat, $"two words", $", then "); (42%Z, 1%nat, $"3", $".")] in
+  sentence_ok ($"Say ") ps = true /\ body ps = $"*one* and __two words__, then **3**." /\
+  sentence_ok ($"Say ") [(42%Z, 0%nat, $"one", $"and")] = false.
+Proof. exact phrases_instance. Qed.
+Print Assumptions C06_emphasis_phrases_hypotheses.
